@@ -7,6 +7,7 @@ package main
 // "plain" / "cb" (kv defaults: int keys, string values, LWW; cb adds OnConflictMerged).
 
 import (
+	"math"
 	"encoding/json"
 	"bufio"
 	"context"
@@ -1119,7 +1120,14 @@ func runL1History(g *gen, mode string, nops int, hstats map[string]int, faulty, 
 		if op.kind == "set" && (w.faulty || w.crashy) {
 			// two writes to one key at one time are byte-identical retries (the properties
 			// quantify over distinct write times or identical retries)
-			sub := &gen{rand.New(rand.NewSource(op.when*131 + int64(op.key.i)*17 + int64(len(op.key.bs))*5 + int64(op.key.bits>>40)))}
+			// (numerically equal INTEGER and REAL keys are one key: they get the same content)
+			ki, kb := op.key.i, int64(op.key.bits>>40)
+			if op.key.tag == 'R' {
+				if f := math.Float64frombits(op.key.bits); f == math.Trunc(f) && math.Abs(f) < 1e15 {
+					ki, kb = int64(f), 0
+				}
+			}
+			sub := &gen{rand.New(rand.NewSource(op.when*131 + ki*17 + int64(len(op.key.bs))*5 + kb))}
 			if mode == "rows" {
 				op.row = sub.row(ncols, true)
 			} else {
